@@ -318,6 +318,7 @@ class C01(object):
         Pcols = {}
         story_damage, position_story = None, 0
         lookback, lookback_damage, shared_ct_threads = 0, None, 0
+        refusal_damage2 = None
         reread = 0
         refusal_damage = None
         with contextlib.redirect_stdout(io.StringIO()):
@@ -404,12 +405,30 @@ class C01(object):
                     Pcols[c_] = x3[:, i_]
                 for i_, c_ in enumerate(("tth", "eta", "ds")):
                     Pcols[c_] = o6[:, i_]
+                if n > 1 and desc.get("refused_call"):
+                    # xyz2geometry(out=...) with an array the kernel cannot fill in place (Fortran order / single precision):
+                    # the call is refused, or the caller's array holds the result afterwards
+                    of_ = np.asfortranarray(np.full((n, 6), 7.25)) if desc["gstyle"] == 0 else np.full((n, 6), 7.25, np.float32)
+                    try:
+                        ct.xyz2geometry(x3, om, pars["t_x"], pars["t_y"], pars["t_z"], out=of_)
+                        if not np.allclose(np.asarray(of_, float), o6, rtol=1e-5, atol=1e-5, equal_nan=True):
+                            refusal_damage2 = float(np.nanmax(np.abs(np.asarray(of_, float) - o6)))
+                    except Exception:
+                        pass
             else:
                 # point-by-point: the grain position enters by shifting xl; compare with the kernel at t = 0
                 pbp.parglobal = P
                 gv, gx, gy, gz = pbp.get_local_gv(0, 0, 1.0, om, np.sin(np.radians(om)), np.cos(np.radians(om)),
                                                   xyz[:, 0].copy(), xyz[:, 1].copy(), xyz[:, 2].copy())
                 Pcols = {"lgx": gx, "lgy": gy, "lgz": gz}
+                # the next voxel is computed while the caller still holds this one's result
+                kept_ = [np.array(a_, copy=True) for a_ in (gv, gx, gy, gz)]
+                pbp.get_local_gv(3, -2, 1.0, om, np.sin(np.radians(om)), np.cos(np.radians(om)),
+                                 xyz[:, 0].copy(), xyz[:, 1].copy(), xyz[:, 2].copy())
+                for a_, k_ in zip((gv, gx, gy, gz), kept_):
+                    if np.asarray(a_).tobytes() != k_.tobytes():
+                        lookback_damage = "gve (get_local_gv result of the previous voxel)"
+                lookback = 1
             if route in ("updateGeometry", "updateGV") and desc.get("lookback") and n and Pcols:
                 before_ = {c_: np.array(Pcols[c_], copy=True) for c_ in Pcols}
                 lb = base.copy()
@@ -428,10 +447,16 @@ class C01(object):
                               "another %s than the table that was updated without a translation" % story_damage}
         if viol is None and lookback_damage is not None:
             viol = {"class": "fast-route-differs", "key": "geometry:columns-change-later",
-                    "detail": "column %s of a table changed when ANOTHER table of as many peaks was updated for a grain elsewhere "
-                              "(%s, fast route)" % (lookback_damage, route)}
+                    "detail": ("the g-vectors get_local_gv returned for one voxel changed when it was called for the next voxel (%s)" % route)
+                    if lookback_damage.startswith("gve") else
+                    ("column %s of a table changed when ANOTHER table of as many peaks was updated for a grain elsewhere "
+                     "(%s, fast route)" % (lookback_damage, route))}
         if viol is None and route == "sf2gv" and desc.get("shared_ct") and n:
             viol, shared_ct_threads = self.shared_ct(desc, ctx, ct, sc, fc, om, sts)
+        if viol is None and refusal_damage2 is not None:
+            viol = {"class": "refused-call-modified-output", "key": "geometry:out-not-filled",
+                    "detail": "xyz2geometry(out=array in Fortran order or single precision) returned without an error but the caller's "
+                              "array does not hold the result (largest difference %.3g)" % refusal_damage2}
         if viol is None and refusal_damage is not None:
             viol = {"class": "refused-call-modified-output", "key": "geometry:refused-call-modified-output",
                     "detail": "sf2gv(out=gv) refused a call (omega one element short) but the caller's g-vector array was overwritten "
